@@ -406,7 +406,9 @@ func (n *ReconcileNode) syncWithAPI(ctx context.Context, node *networkv1beta1.No
 	for id := range node.Status.NetworkInterfaces {
 		if _, ok := eniIDMap[id]; !ok {
 			// as the eni is not attached, so just delete it
-			if node.Status.NetworkInterfaces[id].NetworkInterfaceType == networkv1beta1.ENITypeSecondary {
+			// an eni recorded for deletion (a failed rollback) is ours whatever its type, e.g. a trunk eni
+			if node.Status.NetworkInterfaces[id].NetworkInterfaceType == networkv1beta1.ENITypeSecondary ||
+				node.Status.NetworkInterfaces[id].Status == aliyunClient.ENIStatusDeleting {
 				var remote []*aliyunClient.NetworkInterface
 
 				// look the eni up by id alone: with the instance filter an eni that is not attached, the case
